@@ -10,7 +10,10 @@ def _c01_case(c):
     return {"raw": c[:2000]}
 
 
+import copyvm as _copyvm
+
 CONFIG = {
+    "post_model": _copyvm.vm_sample("GC01"),
     "properties_file": "Properties/C01.v",
     "proof_files": ["Base/Prelude.v", "Proofs/CopySpec.v", "Proofs/CopyAcct.v", "Proofs/CopyOpt.v"],
     "model_files": ["Generated/GC01.v", "Model/CopySpec.v", "Model/CopyTop.v", "Model/CopyOpt.v"],
